@@ -46,7 +46,36 @@ func (propC19) Gen(r *Rand) *Plan {
 	if r.Bool(0.75) {
 		p.Config["maporder"] = fmt.Sprint(1 + r.Int63())
 	}
-	switch r.Weighted([]int{12, 6, 6, 1}) {
+	switch r.Weighted([]int{12, 6, 6, 1, 3}) {
+	case 4:
+		// sequential repetition on one instance, default variables included (no schedule)
+		p.Scenario = "sequential-repeat"
+		if r.Bool(0.6) {
+			g := NewExprGen(r)
+			g.Mixed = r.Bool(0.5)
+			p.Setup = []Op{{Op: "SetExpression", S: g.Top()}}
+			tp := TaskPlan{Sets: []VarSet{g.GenVarSet(r), g.GenVarSet(r), g.GenVarSet(r)}}
+			for i, n := 0, r.Range(3, 10); i < n; i++ {
+				tp.Ops = append(tp.Ops, Op{Op: "eval", Set: r.Range(-1, 2)})
+			}
+			p.Tasks = []TaskPlan{tp}
+		} else {
+			g := NewTmplGen(r)
+			p.Setup = []Op{{Op: "SetTemplate", S: g.Gen(2)}}
+			tp := TaskPlan{}
+			for s := 0; s < 3; s++ {
+				vs := VarSet{}
+				for k, v := range g.GenVars(r) {
+					vs[k] = VStr(v)
+				}
+				tp.Sets = append(tp.Sets, vs)
+			}
+			for i, n := 0, r.Range(3, 10); i < n; i++ {
+				tp.Ops = append(tp.Ops, Op{Op: "eval", Set: r.Range(-1, 2)})
+			}
+			p.Tasks = []TaskPlan{tp}
+		}
+		return p
 	case 3:
 		// repetition under simulator-chosen map iteration orders (no schedule)
 		p.Scenario = "map-order-repeat"
@@ -360,6 +389,9 @@ func (propC19) Exec(p *Plan, x *Ctx) *Outcome {
 	defer SetMapOrder(0)
 	if p.Scenario == "map-order-repeat" {
 		return c19MapOrderRepeat(p, run, out)
+	}
+	if p.Scenario == "sequential-repeat" {
+		return c19SequentialRepeat(p, run, out)
 	}
 	ops := p.Cfg("ops", "unsafe")
 	ntasks := len(p.Tasks)
@@ -833,5 +865,187 @@ func joinStrings(ss []string) string {
 		}
 		out += s
 	}
+	return out
+}
+
+// c19SequentialRepeat evaluates one parsed instance many times in a row, with
+// its default variables (set index -1: Evaluate()) and with explicit sets, in a
+// seeded order: every evaluation of a set must give what a fresh instance gives
+// for that set, and program, defaults and variable values must stay as they were.
+func c19SequentialRepeat(p *Plan, run *Run, out *Outcome) *Outcome {
+	if len(p.Tasks) == 0 || len(p.Setup) == 0 {
+		return out
+	}
+	tp := p.Tasks[0]
+	ops := p.Cfg("ops", "unsafe")
+	isTmpl := p.Setup[0].Op == "SetTemplate"
+	text := p.Setup[0].S
+	sets := tp.Sets
+	if len(sets) == 0 {
+		sets = []VarSet{{}}
+	}
+	setIdx := func(i int) int {
+		if i < 0 {
+			return -1
+		}
+		return i % len(sets)
+	}
+	evals := 0
+	run.Solo(func() {
+		refs := map[int]string{}
+		var calc *calculator.ExpressionCalculator
+		var tmpl *mustache.MustacheTemplate
+		var colls []*variables.VariableCollection
+		var maps []map[string]string
+		var before []string
+		var snap string
+		var setupErr error
+		func() {
+			defer func() {
+				if pv := recover(); pv != nil {
+					setupErr = fmt.Errorf("panic: %v", pv)
+				}
+			}()
+			if isTmpl {
+				tmpl = mustache.NewMustacheTemplate()
+				tmpl.SetAutoVariables(false)
+				setupErr = tmpl.SetTemplate(text)
+				tmpl.SetDefaultVariables(buildMap(sets[0]))
+			} else {
+				calc = calculator.NewExpressionCalculator()
+				calc.SetVariantOperations(opsManager(ops))
+				calc.SetAutoVariables(false)
+				setupErr = calc.SetExpression(text)
+				names := make([]string, 0, len(sets[0]))
+				for n := range sets[0] {
+					names = append(names, n)
+				}
+				sort.Strings(names)
+				for _, n := range names {
+					if n != "" {
+						calc.DefaultVariables().Add(variables.NewVariable(n, sets[0][n].ToVariant()))
+					}
+				}
+			}
+		}()
+		if setupErr != nil {
+			out.Observations["setup_failed"]++
+			return
+		}
+		for _, vs := range sets {
+			if isTmpl {
+				m := buildMap(vs)
+				maps = append(maps, m)
+				before = append(before, snapshotMap(m))
+			} else {
+				c := buildVars(vs)
+				colls = append(colls, c)
+				before = append(before, snapshotVars(c))
+			}
+		}
+		if isTmpl {
+			snap = snapshotTmpl(tmpl)
+		} else {
+			snap = snapshotCalc(calc)
+		}
+		evalOne := func(k int, fresh bool) string {
+			var s c19Slot
+			run.ResetOpSteps()
+			func() {
+				defer func() {
+					if pv := recover(); pv != nil {
+						s.panicV = pv
+					}
+					s.done = true
+				}()
+				if isTmpl {
+					t := tmpl
+					if fresh {
+						t = mustache.NewMustacheTemplate()
+						t.SetAutoVariables(false)
+						if err := t.SetTemplate(text); err != nil {
+							s.err = err
+							return
+						}
+						t.SetDefaultVariables(buildMap(sets[0]))
+					}
+					if k < 0 {
+						s.str, s.err = t.Evaluate()
+					} else if fresh {
+						s.str, s.err = t.EvaluateWithVariables(buildMap(sets[k]))
+					} else {
+						s.str, s.err = t.EvaluateWithVariables(maps[k])
+					}
+					return
+				}
+				c := calc
+				if fresh {
+					c = calculator.NewExpressionCalculator()
+					c.SetVariantOperations(opsManager(ops))
+					c.SetAutoVariables(false)
+					if err := c.SetExpression(text); err != nil {
+						s.err = err
+						return
+					}
+					for _, v := range buildVars(sets[0]).GetAll() {
+						c.DefaultVariables().Add(v)
+					}
+				}
+				if k < 0 {
+					s.res, s.err = c.Evaluate()
+				} else if fresh {
+					s.res, s.err = c.EvaluateUsingVariables(buildVars(sets[k]))
+				} else {
+					s.res, s.err = c.EvaluateUsingVariables(colls[k])
+				}
+			}()
+			return s.describe()
+		}
+		for i, o := range tp.Ops {
+			k := setIdx(o.Set)
+			if _, ok := refs[k]; !ok {
+				refs[k] = evalOne(k, true)
+			}
+			got := evalOne(k, false)
+			evals++
+			out.Event("%d set%d %s", i, k, got)
+			if strings.HasPrefix(got, "step-budget:") {
+				out.Violate("liveness", "C19/step-budget", "evaluation %d: %s", i, got)
+				return
+			}
+			if got != refs[k] {
+				out.Violate("repeatability", "C19/repeat/sequential", "evaluation %d of %q with variable set %d (-1 = default variables) after %d earlier evaluations gives %s; a fresh instance gives %s", i, text, k, i, clip(got), clip(refs[k]))
+				return
+			}
+		}
+		now := ""
+		if isTmpl {
+			now = snapshotTmpl(tmpl)
+		} else {
+			now = snapshotCalc(calc)
+		}
+		if now != snap {
+			out.Violate("snapshot", "C19/snapshot/sequential", "program / defaults changed by sequential evaluations:\n before %s\n after  %s", clip(snap), clip(now))
+		}
+		for k := range sets {
+			var cur string
+			if isTmpl {
+				cur = snapshotMap(maps[k])
+			} else {
+				cur = snapshotVars(colls[k])
+			}
+			if cur != before[k] {
+				out.Violate("snapshot", "C19/snapshot/variables", "variable set %d changed: before %s after %s", k, clip(before[k]), clip(cur))
+			}
+		}
+	})
+	out.Probes["scenario_sequential-repeat"]++
+	out.Steps = run.Steps()
+	out.Nontrivial = evals >= 3
+	out.CaseSig = HashJSON(struct {
+		S []Op
+		T []TaskPlan
+		C map[string]string
+	}{p.Setup, p.Tasks, p.Config})
 	return out
 }
